@@ -259,6 +259,10 @@ func (e *Env) objVal(obj types.Object, id *ast.Ident) Val {
 func (v *V) readVar(st *State, o *types.Var) Val {
 	if val, ok := st.vars[o]; ok {
 		if st.boxed != nil && st.boxed[o] {
+			if _, isStruct := o.Type().Underlying().(*types.Struct); isStruct {
+				e := &Env{v: v, st: st, spec: true, bound: map[string]Val{}}
+				return v.deref(e, Val{T: types.NewPointer(o.Type()), S: val.S}, token.NoPos)
+			}
 			return v.cellRead(st, val.S, o.Type())
 		}
 		return val
